@@ -8,7 +8,7 @@ from .c04 import judge
 
 IMPORTS = ('From OFV Require Import Base.Cplx Base.Lin Sem.PauliSem Sem.FermiSem Sem.BoseSem Model.SymbolicOp Model.QubitOp Model.LadderOp Model.JordanWigner '
            'Model.Hubbard Model.Conjugate Check.DictEquiv Check.OpEquiv Check.Commutator Thm.C07.Adjoint.\n')
-NEEDS = ['Thm/C13/Bonds', 'Thm/C13/BondsF', 'Thm/C13/BondsG', 'Check/OpEquiv']
+NEEDS = ['Thm/C13/Bonds', 'Thm/C13/BondsF', 'Thm/C13/BondsG', 'Thm/C13/GenTie', 'Check/OpEquiv']
 EPS2 = cQ(Fraction(1, 10 ** 18))
 
 def number_op(n): return {((j, 1), (j, 0)): 1.0 for j in range(n)}
